@@ -60,7 +60,7 @@ CHECKS = {
    "Byte counts come from the transport; a repository with exactly max_root_updates newer roots is not judged.", "DESIGN.md §5 C09"),
  "C01": (E1, "exploration",
    "deterministic simulation: Byzantine signature lists injected at each of 8 verification sites of a full simulated update cycle; ground-truth bookkeeping oracle; thorough tier sweeps the finite word space",
-   "Every run builds a whole repository with the foreign publisher, replaces the signature list of one document (shipped root, root N+1 under old keys / new keys / an unchanged root role entry with a pruned key table, timestamp, snapshot, targets, delegated role at depth 1 and 2) by a word over the property's 7-letter alphabet and runs tough's real update cycle; accept must coincide with the harness's count of distinct authorised valid signatures. Thorough enumerates all 19 608 words x 9 sites x 16 (keys, threshold) shapes, then seeded runs with mixed algorithms.",
+   "Every run builds a whole repository with the foreign publisher, replaces the signature list of one document (shipped root, root N+1 under old keys / new keys / an unchanged root role entry with a pruned key table, a delegated role shared by two parents with different key sets, timestamp, snapshot, targets, delegated role at depth 1 and 2) by a word over the property's 7-letter alphabet and runs tough's real update cycle; accept must coincide with the harness's count of distinct authorised valid signatures. Thorough enumerates all 19 608 words x 10 sites x 16 (keys, threshold) shapes, then seeded runs with mixed algorithms.",
    "Trusts aws-lc signatures, the harness's reference canonical JSON, and its bookkeeping of who signed what. Simulation contributes the workflow sites and replay, not schedules: the property has no clock or interleaving.", "DESIGN.md §5 C01"),
  "C02": (E1, "exploration",
    "deterministic simulation: seeded root-chain histories with one broken hop, revoked-key metadata and availability faults on the root probe, against a reference walk",
